@@ -73,13 +73,6 @@ def apply_mod(meta_molecule, modifications):
 
         target_resid = target['resid']
 
-        mod_atoms = {}
-        for mod_atom in molecule.force_field.modifications[desired_mod].atoms:
-            if 'replace' in mod_atom:
-                mod_atoms[mod_atom['atomname']] = mod_atom['replace']
-            else:
-                mod_atoms[mod_atom['atomname']] = {}
-
         target_node = [node for node, resid in meta_molecule.nodes(data='resid')
                        if resid == target_resid][0]
         target_residue = meta_molecule.nodes[target_node]
@@ -98,6 +91,15 @@ def apply_mod(meta_molecule, modifications):
             LOGGER.warning("The resname of your target residue is not recognised a protein resname. "
                            "Will not attempt to modify.")
             continue
+
+        # the modification is only looked up for residues it is applied to; a
+        # force field need not define the default termini for other residues
+        mod_atoms = {}
+        for mod_atom in molecule.force_field.modifications[desired_mod].atoms:
+            if 'replace' in mod_atom:
+                mod_atoms[mod_atom['atomname']] = mod_atom['replace']
+            else:
+                mod_atoms[mod_atom['atomname']] = {}
 
         anum_dict = {}
         # this gives you the correct node indices
